@@ -28,6 +28,9 @@
 #include "datetime.h"
 
 #include "snoopy.h"
+#ifdef SNOOPY_CONF_THREAD_SAFETY_ENABLED
+#include "tsrm.h"
+#endif
 
 #include <errno.h>
 #include <stdio.h>
@@ -62,7 +65,11 @@ int snoopy_datasource_datetime (char * const resultBuf, size_t resultBufSize, ch
     }
 
     // Convert to local time
+#ifdef SNOOPY_CONF_THREAD_SAFETY_ENABLED
+    curLocalTime = snoopy_tsrm_localtime_r(&curTime, &curLocalTimeBuf);
+#else
     curLocalTime = localtime_r(&curTime, &curLocalTimeBuf);
+#endif
     if (NULL == curLocalTime) {
         return snprintf(resultBuf, resultBufSize, "(error @ localtime_r())");
     }
